@@ -125,6 +125,31 @@ def observe_project(item):
     return {"docs": out, "diags": diags[:5], "mon": dict(MON), "warnings": [w for w in cap.warnings if "metadata" in w][:5]}
 
 
+def observe_members(item):
+    """Second run with the default display (private entities hidden): the documentation of variables that are still shown
+    as members of namelist groups must be rendered all the same."""
+    from ford._markdown import MetaMarkdown
+    import contextlib
+    import io
+
+    cap = observe.Captured()
+    try:
+        project, cap = observe.parse_and_correlate([item["root"]], settings_kw=item["settings"], cap=cap)
+        md = MetaMarkdown(project.settings.md_base_dir, project=project)
+        with contextlib.redirect_stdout(io.StringIO()):
+            project.markdown(md)
+    except BaseException as e:  # noqa: BLE001
+        return {"error": f"{type(e).__name__}: {str(e)[:300]}"}
+    out = {}
+    for nl in getattr(project, "namelists", []):
+        for v in nl.variables:
+            if isinstance(v, str):
+                continue
+            out[v.name.lower()] = {"has_doc": hasattr(v, "doc"), "html": docgrammar.tracer_seq(docgrammar.html_text(getattr(v, "doc", "") or "")),
+                                   "permission": getattr(v, "permission", None), "namelist": nl.name}
+    return {"members": out}
+
+
 def case_project(arg):
     seed, docstyle, marks = arg
     ctxs = []
@@ -161,6 +186,7 @@ def case_project(arg):
             open(os.path.join(root, f.name + ".f90"), "w").write(text)
         settings = {k: v for k, v in marks.items()}
         st, r = core.run_alone(observe_project, {"root": root, "settings": settings}, timeout=180)
+        st2, r2 = core.run_alone(observe_members, {"root": root, "settings": {**settings, "display": ["public", "protected"]}}, timeout=180) if seed % 2 == 0 else ("skip", None)
     finally:
         shutil.rmtree(base, ignore_errors=True)
     kfb = {"docstyle": docstyle, "default_markers": marks == {}, "include_file": any(k.endswith(".inc") for k in texts)}
@@ -218,8 +244,25 @@ def case_project(arg):
     for cv in r["mon"].get("admon_viol", [])[:5]:
         viol.append({"kf": {"kind": "admonition_preprocessor_word_conservation", "body_features": note_mechanism(cv["input"])},
                      "w": {**cv, "seed": seed, "arg": list(arg[:2]) + [marks]}})
+    nmem = 0
+    if st2 == "ok" and "members" in (r2 or {}):
+        byname = {}
+        for path, rec in expected.items():
+            if "doc" in rec and path.rsplit("/", 1)[-1].split(":")[0] in ("variable", "arg"):
+                byname.setdefault(path.rsplit(":", 1)[-1], split_expected(rec["doc"])[1])
+        for name, got in r2["members"].items():
+            ebody = byname.get(name)
+            if ebody is None:
+                continue
+            nmem += 1
+            ohtml = [w for w in got["html"] if w.startswith("zq")]
+            if ohtml != ebody:
+                viol.append({"kf": {"kind": "namelist_member_doc_not_rendered", "member_hidden_by_display": got["permission"] == "private", "has_doc_attribute": got["has_doc"], **kfb},
+                             "w": {"member": name, "namelist": got["namelist"], "expected": ebody, "observed": ohtml, "seed": seed, "files": texts, "arg": list(arg[:2]) + [marks]}})
+    elif st2 not in ("skip", "ok") or (r2 or {}).get("error"):
+        viol.append({"kf": {"kind": "ford_failed_with_default_display", **kfb}, "w": {"detail": str(r2)[-600:], "seed": seed, "files": texts}})
     feats = sorted(ctxs[0].doc_features | {"layout:" + f for f in lay.features})
-    return {"viol": viol, "n": n, "feats": feats, "mon": {"admon_evals": r["mon"].get("admon_evals", 0)}, "nontrivial": n >= 2, "hash": core.h(texts),
+    return {"viol": viol, "n": n, "nmem": nmem, "feats": feats, "mon": {"admon_evals": r["mon"].get("admon_evals", 0)}, "nontrivial": n >= 2, "hash": core.h(texts),
             "sample": {"seed": seed, "docstyle": docstyle, "markers": marks, "source_head": next(iter(texts.values()))[:1500]}}
 
 
@@ -286,6 +329,7 @@ def main():
             continue
         run.case(key=r["hash"], nontrivial=r["nontrivial"], sample=r["sample"] if r["nontrivial"] else None)
         run.count("entities_docs_compared", r["n"])
+        run.count("namelist_member_docs_compared_with_default_display", r.get("nmem", 0))
         run.count("contract_evals_admonition_run", r["mon"].get("admon_evals", 0))
         run.seen("marker_style_x_markset", f"{a[1]}|{MARKSETS.index(a[2])}")
         for f in r["feats"]:
@@ -326,7 +370,7 @@ def main():
             for cv in x["contract"]:
                 run.violation({"kind": "admonition_preprocessor_word_conservation", "body_features": note_mechanism(cv["input"])}, cv)
     run.max_samples = 2
-    run.finish(floors={"evaluations": 1500, "distinct_nontrivial": 1000, "entities_docs_compared": 3000, "contract_evals_admonition_run": 3000,
+    run.finish(floors={"evaluations": 1500, "distinct_nontrivial": 1000, "entities_docs_compared": 3000, "contract_evals_admonition_run": 3000, "namelist_member_docs_compared_with_default_display": 20,
                        "marker_style_x_markset": 18, "doc_features_generated": 20})
 
 
